@@ -96,7 +96,8 @@ def _cons_spec(rng, solver, df, pen, seed, coords):
                 alpha_frac=float(rng.choice([0.02, 0.1, 0.4])),
                 positive=bool(rng.integers(0, 2)) if pen in K.POSFLAG + ["WeightedGroupL2"] else False,
                 zero_weights=True, knobs=knobs, group_style=str(rng.choice(["contig", "perm"])),
-                n_tasks=int(rng.integers(1, 4)), warm=str(rng.choice(["dense", "sparse", "dense"]))),
+                n_tasks=int(rng.integers(1, 4)), warm=str(rng.choice(["dense", "sparse", "dense"])),
+                buffers="strided" if rng.random() < 0.2 else "contiguous"),
                    prob=0.1, n_range=(40, 100), p_range=(60, 250))
 
 
